@@ -332,7 +332,8 @@ def run_one_per_entry(u: Unit):
     cfg.contracts[f"{OBS}::Observation._get_parameter_types"] = Contract(f"{OBS}::Observation._get_parameter_types", lambda ex, args, kwargs, fr: ex.st.alloc(HDict([])), "types")
     cfg.contracts[f"{OBS}::_get_short_dimension_names_new"] = Contract(f"{OBS}::_get_short_dimension_names_new", lambda ex, args, kwargs, fr: ex.st.alloc(HDict([])), "names")
     dq = "pyxel/observation/observation_dask.py::run_pipelines_with_dask"
-    cfg.contracts[dq] = Contract(dq, lambda ex, args, kwargs, fr: (calls.append(("dask", kwargs.get("processor"))), VOpaque("xr", ex.st.fresh_int("tree"), {"label": "tree"}))[1], "C07")
+    cfg.contracts[dq] = Contract(dq, lambda ex, args, kwargs, fr: (calls.append(("dask", kwargs.get("processor", next((a for a in args if a is proc), None)))),
+                                                                  VOpaque("xr", ex.st.fresh_int("tree"), {"label": "tree"}))[1], "C07")
     proc = VOpaque("xr", None, {"label": "processor", "truthy": True})
 
     def setup_d(ex):
